@@ -6,7 +6,10 @@ Verdict per obligation:
   undecided  unknown / timeout in every solver
 """
 import multiprocessing as mp
+import hashlib
+import json
 import os
+import threading
 import re
 import subprocess
 import tempfile
@@ -45,10 +48,6 @@ def _pos(h):
     """a hypothesis with its outer existentials replaced by fresh constants (satisfiability-preserving)"""
     if z3.is_quantifier(h) and not h.is_forall() and not h.is_lambda():
         return _pos(_inst(h))
-    if z3.is_and(h):
-        return z3.And([_pos(c) for c in h.children()])
-    if z3.is_not(h):
-        return _neg(h.arg(0))
     return h
 
 
@@ -69,7 +68,8 @@ def build_query(ob, qf_only=False, lite=False):
     lite: without those facts -- fewer hypotheses, so an `unsat` of the lite text is still a proof (its `sat` is not
     a counterexample and is ignored)."""
     s = z3.Solver()
-    terms = [_pos(h) for h in ob.hyps if not (qf_only and _has_quant(h))]
+    _SK[0] = 0          # skolem names only have to be unique within one query; deterministic texts make the result cache effective
+    terms = [h for h in ob.hyps if not (qf_only and _has_quant(h))]
     neg = None
     if not ob.expect_sat:
         neg = _neg(ob.goal)
@@ -83,15 +83,26 @@ def build_query(ob, qf_only=False, lite=False):
         if getattr(rs, "opaque", False) and rs.name in getattr(ob, "reveals", ()) and rs.def_params:
             app = rs.func(*rs.def_params)
             unf.append(z3.ForAll(list(rs.def_params), app == rs.def_body, patterns=[app]))
-    facts = [] if lite else bm.instantiate_axioms(terms + unf)
+    facts = [] if lite is True else bm.instantiate_axioms(terms + unf)
     for t in terms:
         s.add(t)
     for f in unf + facts:
         s.add(f)
-    return s.to_smt2()
+    text = s.to_smt2()
+    if lite == "both":
+        # the lite variant in the same pass (None when there are no string-function facts to leave out)
+        if not facts:
+            return text, None
+        s2 = z3.Solver()
+        for t in terms + unf:
+            s2.add(t)
+        return text, s2.to_smt2()
+    return text
 
 
 Z3_CLI = "z3-new"
+CACHE_DIR = None if os.environ.get("VERIF_NO_CACHE") else os.path.join(os.path.dirname(os.path.dirname(os.path.abspath(__file__))), ".cache", "smt")
+CACHE_STATS = {"hits": 0}
 
 
 def _run_z3_cli(path, timeout_s, opts=()):
@@ -109,8 +120,42 @@ def _run_z3_cli(path, timeout_s, opts=()):
         return "unknown"
 
 
+def _canonical(text):
+    """the query text with z3's let-bound names (?x123 / $x45, numbered by internal AST ids that change from run to
+    run) renamed in order of first appearance -- an alpha-renaming of bound names only"""
+    names = {}
+    return re.sub(r"[?$]x\d+", lambda m: names.setdefault(m.group(0), f"{m.group(0)[0]}v{len(names)}"), text)
+
+
 def _solve_z3(args):
     """quick z3, then cvc5, then longer z3 attempts with other instantiation strategies / seeds"""
+    text, timeout_ms, want_model = args[:3]
+    t0 = time.time()
+    # solver-result cache: keyed by the full query text (which is regenerated from /repo's source on every run), it
+    # only ever answers a query that is byte-identical to one already decided; `unknown` is never cached
+    ckey = hashlib.sha256(_canonical(text).encode()).hexdigest()
+    cpath = os.path.join(CACHE_DIR, ckey[:2], ckey + ".json") if CACHE_DIR else None
+    if cpath and os.path.exists(cpath):
+        try:
+            d = json.load(open(cpath))
+            if d.get("result") in ("sat", "unsat"):
+                CACHE_STATS["hits"] += 1
+                return d["result"], None, 0.0, d.get("reason", ""), d.get("solver", "z3") + "(cached)"
+        except Exception:
+            pass
+    out = _solve_z3_uncached(args)
+    if cpath and out[0] in ("sat", "unsat"):
+        try:
+            os.makedirs(os.path.dirname(cpath), exist_ok=True)
+            tmp = cpath + f".{os.getpid()}.{threading.get_ident()}.tmp"
+            json.dump({"result": out[0], "solver": out[4], "reason": out[3], "seconds": round(out[2], 2)}, open(tmp, "w"))
+            os.replace(tmp, cpath)
+        except OSError:
+            pass
+    return out
+
+
+def _solve_z3_uncached(args):
     text, timeout_ms, want_model = args[:3]
     t0 = time.time()
     with tempfile.NamedTemporaryFile("w", suffix=".smt2", delete=False, dir=os.environ.get("VERIF_SCRATCH")) as f:
@@ -193,26 +238,31 @@ class Verdict:
 def discharge(obligations, timeout_ms=10000, procs=None, use_cvc5=True, cvc5_timeout=20):
     procs = procs or min(16, os.cpu_count() or 4)
     texts = []
+    lites = {}
     for ob in obligations:
         try:
-            texts.append(build_query(ob))
+            if not ob.expect_sat and not ob.name.endswith("@known"):
+                t, lt = build_query(ob, lite="both")
+                lites[id(ob)] = lt
+                texts.append(t)
+            else:
+                texts.append(build_query(ob))
         except Exception as e:
             texts.append(None)
             ob._build_error = f"{type(e).__name__}: {e}"
     # the un-carved twin of a known finding only has to stay unproved: a short budget is enough
+    if os.environ.get("VERIF_DUMP_TEXTS"):     # debugging aid
+        os.makedirs(os.environ["VERIF_DUMP_TEXTS"], exist_ok=True)
+        for k, (ob, t) in enumerate(zip(obligations, texts)):
+            if t is not None:
+                open(os.path.join(os.environ["VERIF_DUMP_TEXTS"], f"{k:04d}.smt2"), "w").write(";; " + ob.name + "\n" + t)
     jobs = []
     for ob, t in zip(obligations, texts):
         if t is None:
             continue
-        lite = None
-        if not ob.expect_sat and not ob.name.endswith("@known"):
-            try:
-                lite = build_query(ob, lite=True)
-            except Exception:
-                lite = None
-            if lite == t:
-                lite = None
-        jobs.append((t, 3000 if ob.name.endswith("@known") else timeout_ms, True, lite))
+        lite = lites.get(id(ob))
+        # covers (satisfiability of a precondition with quantifiers) get a short full attempt, then the quantifier-free part
+        jobs.append((t, 3000 if (ob.name.endswith("@known") or ob.expect_sat) else timeout_ms, True, lite))
     if jobs:
         from concurrent.futures import ThreadPoolExecutor
         with ThreadPoolExecutor(max_workers=procs) as pool:      # threads only wait for solver processes
